@@ -11,6 +11,7 @@ import shutil
 
 from . import common as C
 
+GENERIC_REPLAY = True   # scenarios are a deterministic function of (tier, seed); see check --replay
 LEVEL = {"C01": "model_checking", "C02": "model_checking", "C03": "model_checking"}
 
 
